@@ -54,10 +54,11 @@ func (s *guardSpec) resolve(v ssa.Value) ssa.Value {
 }
 
 func (p *Program) guardEval(fn *ssa.Function, spec guardSpec, cell map[string]gval) []guardOutcome {
-	return p.guardEvalDepth(fn, spec, cell, 2)
+	return p.guardEvalDepth(fn, spec, cell, 2, nil)
 }
 
-func (p *Program) guardEvalDepth(fn *ssa.Function, spec guardSpec, cell map[string]gval, depthLeft int) []guardOutcome {
+// init: values already known for fn's parameters (arguments the caller's evaluation determined)
+func (p *Program) guardEvalDepth(fn *ssa.Function, spec guardSpec, cell map[string]gval, depthLeft int, init map[ssa.Value]gval) []guardOutcome {
 	var out []guardOutcome
 	type state struct {
 		blk, prev *ssa.BasicBlock
@@ -198,7 +199,7 @@ func (p *Program) guardEvalDepth(fn *ssa.Function, spec guardSpec, cell map[stri
 						if !spec.AtomEvents {
 							sub.Event = func(ssa.Instruction) string { return "" }
 						}
-						outs := p.guardEvalDepth(cal, sub, cell, depthLeft-1)
+						outs := p.guardEvalDepth(cal, sub, cell, depthLeft-1, argEnv(cal, c.Call.Args, func(v ssa.Value) gval { return val(s.env, v) }))
 						type oc struct {
 							known, val bool
 							ev         []string
@@ -258,7 +259,7 @@ func (p *Program) guardEvalDepth(fn *ssa.Function, spec guardSpec, cell map[stri
 							}
 						}
 					}
-					outs := p.guardEvalDepth(cal, spec, cell, depthLeft-1)
+					outs := p.guardEvalDepth(cal, spec, cell, depthLeft-1, argEnv(cal, c.Call.Args, func(v ssa.Value) gval { return val(s.env, v) }))
 					for _, o := range outs {
 						ev := append(append([]string(nil), s.events...), o.Events...)
 						if o.Class != "return" {
@@ -293,7 +294,24 @@ func (p *Program) guardEvalDepth(fn *ssa.Function, spec guardSpec, cell map[stri
 		}
 	}
 	if len(fn.Blocks) > 0 {
-		walk(state{blk: fn.Blocks[0], env: map[ssa.Value]gval{}})
+		env0 := map[ssa.Value]gval{}
+		for k, v := range init {
+			env0[k] = v
+		}
+		walk(state{blk: fn.Blocks[0], env: env0})
 	}
 	return out
+}
+
+// argEnv: the callee's parameters whose argument value the caller's evaluation determined
+func argEnv(cal *ssa.Function, args []ssa.Value, val func(ssa.Value) gval) map[ssa.Value]gval {
+	env := map[ssa.Value]gval{}
+	for i, prm := range cal.Params {
+		if i < len(args) {
+			if v := val(args[i]); v.known {
+				env[prm] = v
+			}
+		}
+	}
+	return env
 }
